@@ -229,6 +229,22 @@ ADDED9 = {
 }
 for _pid, _t in ADDED9.items():
     CLAIMED[_pid]["text"] += _t
+
+# additions of round 10
+ADDED10 = {
+    "C02": " RetQ2Spec: a QoS 2 PUBLISH with RETAIN becomes the retained message when it is released, not when it arrives (subscriptions between PUBLISH and PUBREL), all paths.",
+    "C03": " Codec!Mods, clone obligation: a clone of one message, then a clone of another, then changes to the original - both clones keep their fields and encode to the bytes of the messages they were cloned from.",
+    "C04": " Codec!Mods, reuse obligation: a message object that holds a decoded packet is decoded into again and holds exactly the fields of the second packet afterwards (4.3 k pairs; found the defect fixed in 96863a4).",
+    "C05": " Attacker kinds post-refused-filter (a SUBSCRIBE whose filters the broker rejects) and post-unsubscribe-unknown.",
+    "C08": " Broker!ApiSubscribeErr: an in-process subscriber at a lower QoS whose callback reports an error for the retained message it is handed (the stored message stays what it was).",
+    "C09": " The end of a connection by keep-alive expiry: the KeepAlive schedules that end in an expiry (fresh session, resumed session, next to a rival connection with the same client identifier) run in real time with K = 1 s, the will reaches the witness exactly once.",
+    "C12": " Requests for which the application passes no completion callback (constant NoCb of the Client specification) are released together with requests that have one.",
+    "C16": " The witness publisher of the fault sequences connects without a client identifier: at the end the session the broker named for it is gone like every other.",
+    "C17": " Recorded runs include a client with a persistent session that connects and leaves twelve times per run while an in-process publisher floods its stored subscription: every one of its connections starts with the CONNACK, whole, and goes on in whole packets.",
+    "C19": " prior = rival: a second connection presents the same client identifier while the observed one is up.",
+}
+for _pid, _t in ADDED10.items():
+    CLAIMED[_pid]["text"] += _t
 CLAIMED["C13"]["note"] = CLAIMED["C13"]["note"].replace("one caller at a time.", "one caller at a time in the graph walks and random drivers; concurrent callers in the linearizability trials (interleavings are whatever the scheduler produces around a spin barrier).")
 CLAIMED["C13"]["technique"] = "TLA+ specification (AckQueue) model-checked with TLC; state-graph replay + TLC trace validation (AckQueueTrace, AckQueueLinTrace)"
 CLAIMED["C16"]["technique"] = CLAIMED["C16"]["technique"] + "; life-cycle hook events validated by TLC against LifeTrace (Life is refined by Teardown)"
